@@ -136,7 +136,9 @@ PART_POOLS = {
     'pbool': [True, False],
     'pfloat': [0.5, 1.0, 0.0, -2.0, 3.0],
     'pcat': ['x', 'y', 'z', 'w'],
-    'pts': ['2020-01-01', '2020-01-02T03:04:05', '1999-12-31'],
+    'pts': ['2020-01-01', '2020-01-02T03:04:05', '1999-12-31',
+            # two instants within one microsecond of each other
+            '2020-01-01T00:00:00.000000123', '2020-01-01T00:00:00.000000124'],
 }
 
 
@@ -199,6 +201,10 @@ def build_frame(spec):
     if n == 0:
         # keep dtypes for empty frames
         df = pd.DataFrame({k: data[k].iloc[:0] for k in order})
+    if spec.get('dup_labels') and n:
+        # row labels that repeat (a frame glued together with pd.concat
+        # without ignore_index); they are not stored
+        df.index = np.arange(n) // 2
     return df
 
 
